@@ -11,6 +11,34 @@ from ..engines.mustflow import MustFollow
 from ..engines.typecase import TypeCase, events_matching
 
 
+
+def order_rules(ctx: Ctx) -> None:
+    """ORDER: the canonical sort of the absolute view -- key = (time, channel, message kind, pitch), ascending -- and the order of the
+    message kinds it uses as a tie-breaker."""
+    p = ctx.p
+    # ORDER
+    s = p.func("AbsoluteSequence.sort")
+    ctx.analysed(s)
+    call = next((c for c in walk_local(s.node) if isinstance(c, ast.Call) and call_method(c)[1] == "sort"), None)
+    key = next((k.value for k in call.keywords if k.arg == "key"), None) if call else None
+    if not isinstance(key, ast.Lambda) or not isinstance(key.body, ast.Tuple):
+        ctx.undetermined("ORDER", "AbsoluteSequence.sort key", "sort key is not a lambda returning a tuple: not judged")
+    else:
+        v = key.args.args[0].arg
+        elts = key.body.elts
+        names = []
+        for e in elts:
+            attrs = [a.attr for a in ast.walk(e) if isinstance(a, ast.Attribute) and isinstance(a.value, ast.Name) and a.value.id == v]
+            names.append(attrs[-1] if attrs else "?")
+        ctx.check(names[:1] == ["time"] and attr_chain(elts[0]) == [v, "time"], "ORDER", f"sort key {names} starts with the time", function=s.qualname,
+                  construct="canonical sort key does not lead with the event time", message=f"{names}", file=s.file, node=call)
+        ctx.check("message_type" in names, "ORDER", f"sort key {names} orders equal-time events by message type", function=s.qualname,
+                  construct="canonical sort key does not order by message type", message=f"{names}", file=s.file, node=call)
+        ctx.check(not any(k.arg == "reverse" for k in call.keywords), "ORDER", "ascending sort", function=s.qualname,
+                  construct="canonical sort is reversed", message="", file=s.file, node=call)
+    from ..engines.structure import message_type_order_rule
+    message_type_order_rule(ctx, "ORDER")
+
 def check(ctx: Ctx) -> None:
     _check(ctx)
     # fusion of overlapping notes is done by normalise's nesting stacks: the same STACK rules as C07
@@ -94,28 +122,7 @@ def _check(ctx: Ctx) -> None:
     ctx.check(not bad, "ALL", f"{q}: re-sorted after appending, on every exit", function=q,
               construct="merged messages are not re-sorted on every exit", message="", file=fi.file, node=bad[0][1] if bad else fi.node)
 
-    # ORDER
-    s = p.func("AbsoluteSequence.sort")
-    ctx.analysed(s)
-    call = next((c for c in walk_local(s.node) if isinstance(c, ast.Call) and call_method(c)[1] == "sort"), None)
-    key = next((k.value for k in call.keywords if k.arg == "key"), None) if call else None
-    if not isinstance(key, ast.Lambda) or not isinstance(key.body, ast.Tuple):
-        ctx.undetermined("ORDER", "AbsoluteSequence.sort key", "sort key is not a lambda returning a tuple: not judged")
-    else:
-        v = key.args.args[0].arg
-        elts = key.body.elts
-        names = []
-        for e in elts:
-            attrs = [a.attr for a in ast.walk(e) if isinstance(a, ast.Attribute) and isinstance(a.value, ast.Name) and a.value.id == v]
-            names.append(attrs[-1] if attrs else "?")
-        ctx.check(names[:1] == ["time"] and attr_chain(elts[0]) == [v, "time"], "ORDER", f"sort key {names} starts with the time", function=s.qualname,
-                  construct="canonical sort key does not lead with the event time", message=f"{names}", file=s.file, node=call)
-        ctx.check("message_type" in names, "ORDER", f"sort key {names} orders equal-time events by message type", function=s.qualname,
-                  construct="canonical sort key does not order by message type", message=f"{names}", file=s.file, node=call)
-        ctx.check(not any(k.arg == "reverse" for k in call.keywords), "ORDER", "ascending sort", function=s.qualname,
-                  construct="canonical sort is reversed", message="", file=s.file, node=call)
-    from ..engines.structure import message_type_order_rule
-    message_type_order_rule(ctx, "ORDER")
+    order_rules(ctx)
     bi = p.func("binary_insort")
     ctx.analysed(bi)
     cmpn = [c for c in walk_local(bi.node) if isinstance(c, ast.Compare) and ".time" in src(c)]
